@@ -644,15 +644,29 @@ def rule_K4(run: Run, prog: Program) -> int:
                 cps = cur.params()
                 cself = cps[0].arg if cps else "self"
                 ctr = cps[1].arg if len(cps) > 1 else None
-                for st in walk_no_nested(cur.node):
-                    if isinstance(st, ast.Assign):
-                        for t in st.targets:
-                            if isinstance(t, ast.Attribute) and t.attr == a and isinstance(t.value, ast.Name) and t.value.id in rn:
-                                ok = True
-                                in_slices = {id(y) for x in ast.walk(st.value) if isinstance(x, ast.Subscript) for y in ast.walk(x.slice)}
-                                used = {x.id for x in ast.walk(st.value) if isinstance(x, ast.Name) and id(x) not in in_slices}
-                                if cself in used and not (used & rn) and ctr not in used:
-                                    stale = (cur, st)
+                # (function, names that denote the transformed result there, names that denote the transformation there)
+                scopes = [(cur, set(rn), {ctr} if ctr else set())]
+                for call in walk_no_nested(cur.node):  # hooks called on self with the result as an argument
+                    if isinstance(call, ast.Call) and isinstance(call.func, ast.Attribute) and isinstance(call.func.value, ast.Name) \
+                            and call.func.value.id == cself and any(isinstance(x, ast.Name) and x.id in rn for x in call.args):
+                        hook = prog.lookup(s, call.func.attr)
+                        if hook is None or hook is cur:
+                            continue
+                        hps = [p.arg for p in hook.params()][1:]
+                        res_alias = {hps[i] for i, x in enumerate(call.args) if i < len(hps) and isinstance(x, ast.Name) and x.id in rn}
+                        tr_alias = {hps[i] for i, x in enumerate(call.args) if i < len(hps) and isinstance(x, ast.Name) and x.id == ctr}
+                        scopes.append((hook, res_alias, tr_alias))
+                for sf, res_names, tr_names in scopes:
+                    sself = sf.params()[0].arg if sf.params() else "self"
+                    for st in walk_no_nested(sf.node):
+                        if isinstance(st, ast.Assign):
+                            for t in st.targets:
+                                if isinstance(t, ast.Attribute) and t.attr == a and isinstance(t.value, ast.Name) and t.value.id in res_names:
+                                    ok = True
+                                    in_slices = {id(y) for x in ast.walk(st.value) if isinstance(x, ast.Subscript) for y in ast.walk(x.slice)}
+                                    used = {x.id for x in ast.walk(st.value) if isinstance(x, ast.Name) and id(x) not in in_slices}
+                                    if sself in used and not (used & res_names) and not (used & tr_names):
+                                        stale = (sf, st)
                 if ok:
                     break
                 calls_super = any(
@@ -768,33 +782,39 @@ def rule_K5(run: Run, prog: Program) -> int:
 def rule_K6(run: Run, prog: Program) -> int:
     run.rule(
         "E6.K6",
-        "a whole-array fast path `if <reduction>(per-element condition): return <parameter unchanged>` must quantify with all(): with "
-        "any() a collection in which only SOME elements need no work is returned unprocessed, so collections and single objects disagree",
+        "a whole-array fast path `if <test>: return <parameter unchanged>` must hold for EVERY element: `np.all(c)` / `not np.any(needs_work)`. "
+        "The existential forms `np.any(c)` / `not np.all(needs_work)` return a collection unprocessed as soon as one element needs no work, so "
+        "collections and single objects disagree",
     )
+    from geolint.dunder import _single_assign_env
+    from geolint.errors import _reduction_form
+
     n = 0
     for fn in prog.package_functions():
         params = set(fn.param_names())
         if fn.cls is not None and not fn.is_staticmethod and fn.params():
             params.discard(fn.params()[0].arg)
+        env = None
         for node in walk_no_nested(fn.node):
             if not (isinstance(node, ast.If) and len(node.body) == 1 and isinstance(node.body[0], ast.Return)
                     and isinstance(node.body[0].value, ast.Name) and node.body[0].value.id in params):
                 continue
-            t = node.test
-            if not isinstance(t, ast.Call):
+            if env is None:
+                env = _single_assign_env(fn)
+            form = _reduction_form(node.test, env)
+            if form is None:
                 continue
-            red = t.func.attr if isinstance(t.func, ast.Attribute) else getattr(t.func, "id", "")
-            if red not in ("all", "any"):
-                continue
+            red, neg, _operand = form
             n += 1
             loc = f"{fn.module.rel}:{node.lineno}"
             label = norm_stmt(node)
-            if red == "all":
+            universal = (red == "all" and not neg) or (red == "any" and neg)
+            if universal:
                 run.add("E6.K6", fn.short, label, PROVEN, "fast path requires the condition for every element", loc)
             else:
                 run.add("E6.K6", fn.short, label, VIOLATION,
-                        f"`{label}` returns `{node.body[0].value.id}` unchanged as soon as ONE element satisfies the condition: in a collection that "
-                        f"mixes such elements with others the remaining elements are never processed", loc)
+                        f"`{label}` returns `{node.body[0].value.id}` unchanged as soon as ONE element needs no work: in a collection that mixes such "
+                        f"elements with others the remaining elements are never processed", loc)
     return n
 
 
